@@ -3,6 +3,10 @@
 import json, subprocess
 ALL = ["C%02d" % i for i in range(1, 21)]
 CHECKS = {
+ "C12": dict(cat="exploration", tech="deviation-bounded exhaustive product over call parameters, plus full products of interacting axes",
+   text="Every assignment that differs from each of the 11 writers' default call in at most 2 (quick) / 3 (thorough) of 14 axes (format incl. all 17 values and out-of-range ones, ~95 contents incl. empty/4000-char/invalid UTF-8/escape characters, symbolic widths and heights around the bare and natural sizes, ten hint keys with in- and out-of-range values), plus full products: margin -130..30 x width 0..160 x height for QR and the nine 1-D writers, Code 128 forced code set x all strings <=3/4 over 12 classes, all writers x all strings <=2/3 over 21 classes. Oracle: returns under the watchdog, no panic, exactly one of matrix/error, matrix >= the bare symbol (same call at 0x0, margin 0) and for QR/1-D >= max(requested,1), 1-D symbol actually drawn.",
+   note="Hint values are of the Go types each hint documents. The bare-symbol size comes from the library itself (margin-0 rendering); symbol-size correctness against the standards is C07/C08/C13/C14.",
+   ref="5/C12"),
  "C04": dict(cat="exploration", tech="exhaustive enumeration of field element pairs and of bounded error patterns against a naive GF/RS reference",
    text="All element pairs of all six Galois fields against carry-less polynomial arithmetic; Reed-Solomon: every (k,r) over GF(16) with every error pattern of weight 1 and 2 (all magnitudes) and every position set of weight 3..t; for the 256/64/1024/4096 fields every block shape of the QR, Data Matrix and Aztec size tables with all single errors, all position pairs and full-weight position families; encoder instances re-used across parity counts. Oracle: data unchanged, zero syndromes under the reference field, parity equals the reference, decode restores the pristine word.",
    note="Trusted: verif/ref/gf (carry-less multiply, Horner evaluation, long-division parity). For fields larger than 16 elements weight-3+ patterns are structured position families, not all subsets; magnitudes use a menu in the quick tier.",
